@@ -157,6 +157,13 @@ func doR(arg string) (out string, oracle string) {
 		}
 	}()
 	data := unhex(arg)
+	// a cancelled context: an error, nothing consumed, nothing taken from the transport (not modelled: explored)
+	cctx, cancel := context.WithCancel(context.Background())
+	cancel()
+	ob0 := &oneByte{data: data}
+	if m, n, err := jsonrpc2.HeaderFramer().Reader(ob0).Read(cctx); err == nil || m != nil || n != 0 || ob0.n != 0 {
+		return "CANCELLED", fmt.Sprintf("cancelled-context:err=%v,n=%d,taken=%d", err, n, ob0.n)
+	}
 	ob := &oneByte{data: data}
 	t1, o1 := readAll(jsonrpc2.HeaderFramer().Reader(ob), len(data), func() int { return ob.n })
 	t2, o2 := readAll(jsonrpc2.HeaderFramer().Reader(bytes.NewReader(data)), len(data), nil)
